@@ -143,3 +143,27 @@ func VerifC15Cancel() {
 	c15CheckRecord(tag, img, secs, 0, len(*got), kinds, nil, *got, false)
 	verifReach("end")
 }
+
+// C15.short — a section whose payload is shorter than two bytes has no kind byte. The traversal must
+// fail with an error (or skip it), not crash the reading goroutine.
+func VerifC15Short() {
+	const tag = "C15.short"
+	verifC15QueueCap = verifParam("queuecap", 1)
+	verifC15ObjectCap = verifParam("objcap", 1)
+	maxK := verifParam("maxk", 2)
+	k := 1 + verifChoice("sections", maxK)
+	lens := append([]int{}, c15DataLens[0]...)
+	lens[k-1] = verifChoice("short_len", 2) // payload of the last section: 0 or 1 byte
+	H := 11
+	ign := c15IgnoreSet(verifParam("ignorebase", 1))
+	kinds := verifBytes("kind", k)
+	img, secs := c15Image(H, k, lens, kinds)
+	// Known finding C15-short-payload-panic: Run indexes data[1] without looking at len(data).
+	verifKnownFinding("C15-short-payload-panic", true)
+	cb, got := c15Recorder(false)
+	oa := NewObjectAccumulator(c15NewReader(img, H), iplddecoders.KindBlock, cb, ign...)
+	err := oa.Run(context.Background())
+	verifAssert(err != nil, tag+": Run reports success on a CAR with an object that has no kind byte")
+	c15CheckRecord(tag, img, secs, 0, k-1, kinds, ign, *got, false)
+	verifReach("end")
+}
